@@ -16,7 +16,6 @@ _US = ('validate() matches its pattern on clean(number, \'\').strip() and return
        'raw argument whose relation (both non-empty together) is not a character-class fact')
 _STNR = 'de.stnr keeps its patterns in instances of a local class (_Format); instance methods are not modelled'
 C01_UNDECIDED_SINKS = {
-    "stdnum.cz.bankaccount|_calc_checksum|int(n)": 'the number is rebuilt by compact() from optional regex groups (zfill/join); positions are lost before the digit gate is re-applied',
     "stdnum.de.handelsregisternummer|validate|' '.join((x for x in [court, registry, number, qualifier] if x))": 'free-text court name handled by _split(); tuple of optional parts is not modelled',
     "stdnum.de.handelsregisternummer|validate|returns empty-str": 'free-text court name handled by _split(); tuple of optional parts is not modelled',
     "stdnum.de.stnr|validate|(region_fmt.match(number) or country_fmt.match(number) for _region, region_fmt, country_fmt in _get_formats(region))": _STNR,
@@ -26,7 +25,6 @@ C01_UNDECIDED_SINKS = {
     "stdnum.de.stnr|validate|country_fmt.match(number)": _STNR,
     "stdnum.mac|is_universally_administered|int(number[:2], 16)": 'compact() is re-applied to the already compact value and rebuilds it through split(\':\')/join; the per-position facts of the pattern gate are lost',
     "stdnum.ro.onrc|validate|county, serial, year = number[1:].split('/')": 'split(\'/\') of a string whose pattern has exactly two slashes: segment structure is not modelled',
-    "stdnum.ro.onrc|validate|int(county)": 'split(\'/\') of a string whose pattern has exactly two slashes: segment structure is not modelled',
     "stdnum.se.personnummer|get_birth_date|int('%d%s' % (century, number[0:2]))": 'compact() rebuilds the number around the sign character (replace on a slice); positions are lost',
     "stdnum.us.ein|get_campus|numdb.get('us/ein').info(number)[0]": _US,
     "stdnum.us.ein|validate|returns empty-str": _US,
@@ -59,6 +57,7 @@ _DISPATCH = 'the result is assembled from the result of a dynamically selected m
 C02_UNDECIDED = {
     'stdnum.cr.cpf': _REBUILD, 'stdnum.tn.mf': _REBUILD, 'stdnum.mac': _REBUILD, 'stdnum.isan': _REBUILD, 'stdnum.meid': _REBUILD,
     'stdnum.gs1_128': _REBUILD, 'stdnum.de.handelsregisternummer': _REBUILD,
+    'stdnum.cz.bankaccount': _REBUILD, 'stdnum.nz.bankaccount': _REBUILD, 'stdnum.ro.onrc': _REBUILD,
     'stdnum.nl.postcode': 'the canonical form contains the blank that compact() deletes; validate() re-inserts it (fixed point of validate, not of compact)',
     'stdnum.eu.vat': _DISPATCH, 'stdnum.vatin': _DISPATCH, 'stdnum.us.tin': _DISPATCH,
 }
@@ -76,6 +75,7 @@ C04_UNDECIDED = {
     'stdnum.no.kontonr': 'consequence of the C02 finding for no.kontonr (compact() strips 0000 repeatedly)',
     'stdnum.pt.cc': 'numbers of unbounded length (pattern [0-9]*): negative slices of a variable-length string',
     'stdnum.gs1_128': _REBUILD, 'stdnum.de.handelsregisternummer': _REBUILD,
+    'stdnum.cz.bankaccount': _REBUILD, 'stdnum.nz.bankaccount': _REBUILD,
 }
 C12_UNDECIDED_SINKS = {
     "stdnum.se.personnummer|get_birth_date|int('%d%s' % (century, number[0:2]))": C01_UNDECIDED_SINKS["stdnum.se.personnummer|get_birth_date|int('%d%s' % (century, number[0:2]))"],
